@@ -22,6 +22,7 @@ PROPERTY = "C09"
 MODULE = "equationOfMotion"
 MIN_OBLIGATIONS = 12
 NF = 2
+LAST_MINIMIZE = None
 
 dV = [specfun(f"dVeff_dphi{f}") for f in range(NF)]
 Vz = specfun("VeffF", [dV[0], dV[1], "dVeffF_dT"])
@@ -108,7 +109,11 @@ def c_pressure_tail(chk):
         return r
 
     def minimize(it, a, k):
+        global LAST_MINIMIZE
         it.event(kind="minimize", x0=a[1], method=k.get("method"), bounds=k.get("bounds"))
+        b = k.get("bounds")
+        LAST_MINIMIZE = {"x0": a[1], "lb": b.attrs["lb"] if isinstance(b, SymObj) else None, "ub": b.attrs["ub"] if isinstance(b, SymObj) else None,
+                         "pc": list(it.pc)}
         return SymObj(None, None, attrs={"x": as_array(solx), "fun": it.fresh_real("action_min"), "success": it.fresh_bool("nm_success")}, label="OptimizeResult")
     reg = dict(REG_FIELDS)
     reg.update({"EffectivePotential.derivField": deriv_field, "Particle.msqDerivative": msq_deriv,
@@ -119,7 +124,7 @@ def c_pressure_tail(chk):
                                                                             attrs={"args": list(a)})})
     ext = dict(stubs.EXTERNALS)
     ext["scipy.optimize.minimize"] = minimize
-    ext["scipy.optimize.Bounds"] = lambda it, a, k: Opaque("Bounds")
+    ext["scipy.optimize.Bounds"] = lambda it, a, k: SymObj(None, None, label="Bounds", attrs={"lb": k.get("lb", a[0] if a else None), "ub": k.get("ub", a[1] if len(a) > 1 else None)})
 
     def mk(it):
         eom = make_eom(2)
